@@ -709,6 +709,21 @@ pub fn case(prop: &str, up: &'static str, rng: &mut Rng, pools: &mut Pools, rep:
     rep.metric_max("width", inst.layout.width_deep() as i64);
     rep.set_add("layouts", inst.layout.hash());
 
+    // C12: now and then the dispatcher first goes through a setup call in which the setup hook of
+    // one of its thread-local systems panics (the caller catches it): its thread-local systems are
+    // all still there afterwards - they run, in order, and the conversion is still refused
+    if up == "C12" && rng.chance(1, 8) {
+        let tls: Vec<u32> = plan.tls().iter().map(|t| t.uid).collect();
+        if !tls.is_empty() {
+            let v = tls[rng.below(tls.len())];
+            inst.ctx.inject[v as usize].store(INJ_PANIC_SETUP, SeqCst);
+            let world = &mut inst.world;
+            let d = inst.disp.as_mut().expect("dispatcher");
+            let _ = std::panic::catch_unwind(std::panic::AssertUnwindSafe(|| d.setup(world)));
+            inst.ctx.inject[v as usize].store(INJ_NONE, SeqCst);
+            rep.metric("setup_calls_with_a_panicking_thread_local_hook", 1);
+        }
+    }
     let mut sum = ExecSummary::default();
     let need = threads_needed(&inst.layout);
     let pool_ok = pool_size >= need;
@@ -892,6 +907,15 @@ fn check_sendable(inst: &mut Inst, findings: &mut Vec<Finding>, rep: &mut Report
             let (shape, ntl) = d.verif_shape();
             if shape != inst.layout.shape() || ntl != inst.layout.tls.len() {
                 findings.push(Finding::new(&["C12"], "sendable_err_changed_plan", format!("the dispatcher handed back by try_into_sendable has shape {:?}/{} instead of {:?}/{}", shape, ntl, inst.layout.shape(), inst.layout.tls.len())));
+            } else if let Ok(l2) = crate::layout::recover(&mut d, &inst.ctx, &inst.world) {
+                // ... with its systems, thread-local ones included, where they were
+                if l2.tls != inst.layout.tls || l2.stages != inst.layout.stages {
+                    findings.push(Finding::new(
+                        &["C12"],
+                        "sendable_err_changed_plan",
+                        format!("the dispatcher handed back by a refused try_into_sendable runs its thread-local systems in the order {:?}, before the call it was {:?} (registration order)", l2.tls, inst.layout.tls),
+                    ));
+                }
             }
             inst.ctx.set_mode(Mode::Quiet);
             let w = &inst.world;
